@@ -81,13 +81,20 @@ pub fn gen_failing(t: &mut Tape, spec: &SpecTable, open: &[u64]) -> Option<(WOp,
             }
             let e = cands[t.below(cands.len())];
             let mut po = PayOpts { big_left: 0, huge: false, max_small: 6 };
-            Some((WOp::Write(Flat::Leaf(e.id, gen_payload(t, e.ty, &mut po)), WOpt::Unknown), "unknown_size_on_non_master"))
+            let leaf = Flat::Leaf(e.id, gen_payload(t, e.ty, &mut po));
+            // the deprecated write_unknown_size() makes the same promise
+            if t.chance(1, 3) {
+                return Some((WOp::UnknownDeprecated(leaf), "unknown_size_on_non_master_deprecated_call"));
+            }
+            Some((WOp::Write(leaf, WOpt::Unknown), "unknown_size_on_non_master"))
         }
         3 => {
             let id = *t.pick(&[0u64, 1, 0x7F, 0x1FF, 0x8000, 0x3FFF, 1 << 63, u64::MAX, 0x0100, 0x20_0000_00]);
             if spec.get(id).is_some() || ref_is_wellformed_id(id) {
                 return None;
             }
+            // (write_raw(id, data) does not look at the id at all — `write_raw(0, ..)` returns Ok and emits a size and payload with no
+            // id bytes — so it never is a *rejected* call and the property, which speaks about calls that return an error, is silent on it)
             Some((WOp::Write(Flat::Leaf(id, Payload::Raw(t.bytes(3))), WOpt::Default), "malformed_raw_id"))
         }
         4 => {
@@ -390,7 +397,7 @@ pub fn run(rc: &mut RunCtx) {
     rc.run_pt(STAGES[0], rc.pick(480_000, 2_000_000), (96, 640));
     rc.run_pt(STAGES[1], rc.pick(160_000, 800_000), (96, 500));
     rc.require_label("rejected_master_end", "width1_content_127plus", 300_000);
-    for l in ["tag_not_allowed_here", "size_not_representable_in_width", "unknown_size_on_non_master", "malformed_raw_id", "end_of_not_innermost_master", "full_with_invalid_child", "failing_call_inside_open_master"] {
+    for l in ["tag_not_allowed_here", "size_not_representable_in_width", "unknown_size_on_non_master", "malformed_raw_id", "unknown_size_on_non_master_deprecated_call", "end_of_not_innermost_master", "full_with_invalid_child", "failing_call_inside_open_master"] {
         rc.require_label("rejected_calls", l, 20_000);
     }
     if !rc.quick() {
